@@ -714,3 +714,279 @@ func c09Reload(c *core.Ctx) {
 			sprintf("%d abstract iteration end(s) of the loop over previous rules: none with DeepEqual ∧ same policy ∧ live limiter but no carry-over", nInnerEnds), why(badKeep), w(badKeep)...)
 	}
 }
+
+// c09Policy: R-C09-5 — translation of the filter's policy into the limiter's policy. The
+// property quantifies over all policies "including timeout = 0": an explicitly configured
+// timeoutDuration (also a zero one: never queue) must reach librl.Policy.TimeoutDuration as
+// parsed; a built-in default may stand in only when the setting is empty (or does not parse).
+// Typestate of the value: parsed-from-the-setting / constant / other, followed through locals
+// and the policy struct up to the limiter constructor.
+func c09Policy(c *core.Ctx) {
+	pkg := c.Prog.Pkg(c09flt)
+	libTO := structField(c, c09lib, "Policy", "TimeoutDuration")
+	specTO := structField(c, c09flt, "Policy", "TimeoutDuration")
+	if pkg == nil || libTO == nil || specTO == nil {
+		return
+	}
+	sinks := 0
+	for _, fd := range c09pkgFuncs(pkg) {
+		f := flow.NewFunc(pkg, fd)
+		var news []*ast.CallExpr
+		for _, call := range calls(fd.Body, false) {
+			if calleeIs(f, call, c09lib+".New") && len(call.Args) == 1 {
+				news = append(news, call)
+			}
+		}
+		if len(news) == 0 {
+			continue
+		}
+		sinks += len(news)
+		c.Count("functions_analysed", 1)
+		c09policyFn(c, f, declName(pkg, fd), news, libTO, specTO)
+	}
+	c.RequireCount("R-C09-5", "limiter constructor call sites in "+c09flt, sinks, 1)
+}
+
+func c09policyFn(c *core.Ctx, f *flow.Func, name string, news []*ast.CallExpr, libTO, specTO *types.Var) {
+	cons := name + "|configured timeoutDuration reaches the limiter policy"
+	isSpecStr := func(e ast.Expr) bool { return c09fieldOf(f, c09resolve(f, e)) == specTO }
+	isDuration := func(e ast.Expr) bool {
+		tv, ok := f.Info.Types[e]
+		if ok && tv.Type != nil {
+			return tv.Type.String() == "time.Duration"
+		}
+		if id, ok := e.(*ast.Ident); ok {
+			if o := c09obj(f, id); o != nil {
+				return o.Type().String() == "time.Duration"
+			}
+		}
+		return false
+	}
+	isParse := func(e ast.Expr) (*ast.CallExpr, bool) {
+		call, ok := ast.Unparen(e).(*ast.CallExpr)
+		if !ok || len(call.Args) != 1 {
+			return nil, false
+		}
+		fo, ok := f.Callee(call).(*types.Func)
+		return call, ok && fo.Pkg() != nil && fo.Pkg().Path() == "time" && fo.Name() == "ParseDuration"
+	}
+	// facts "the setting is empty" / "the setting did not parse"
+	emptyKeys := map[string]bool{}
+	errKeys := map[string]bool{}
+	ast.Inspect(f.Body, func(n ast.Node) bool {
+		switch x := n.(type) {
+		case *ast.Ident:
+			if tv, ok := f.Info.Types[x]; ok && tv.Type != nil && isSpecStr(x) {
+				emptyKeys["eq:"+f.Render(x)+`==""`] = true
+			}
+		case *ast.SelectorExpr:
+			if c09fieldOf(f, x) == specTO {
+				emptyKeys["eq:"+f.Render(x)+`==""`] = true
+			}
+		case *ast.AssignStmt:
+			if len(x.Lhs) == 2 && len(x.Rhs) == 1 {
+				if call, ok := isParse(x.Rhs[0]); ok && isSpecStr(call.Args[0]) {
+					if id, ok := x.Lhs[1].(*ast.Ident); ok && id.Name != "_" {
+						errKeys[f.NilKey(id)] = true
+					}
+				}
+			}
+		}
+		return true
+	})
+	kKey := func(r string) string { return "ev:k:" + r } // T = parsed from the setting, F = constant
+	oKey := func(r string) string { return "ev:o:" + r } // T = anything else was stored
+	set := func(st *flow.State, target string, k, o flow.Val) {
+		st.Set(kKey(target), k)
+		st.Set(oKey(target), o)
+	}
+	var wrong *ast.CallExpr // a duration parsed from another setting flows towards the timeout
+	classify := func(st *flow.State, r ast.Expr) (k, o flow.Val) {
+		r = ast.Unparen(r)
+		if tv, ok := f.Info.Types[r]; ok && tv.Value != nil {
+			return flow.False, flow.False
+		}
+		if call, ok := isParse(r); ok {
+			if isSpecStr(call.Args[0]) {
+				return flow.True, flow.False
+			}
+			wrong = call
+			return flow.Unknown, flow.Unknown
+		}
+		switch r.(type) {
+		case *ast.Ident, *ast.SelectorExpr:
+			k, o = st.Get(kKey(f.Render(r))), st.Get(oKey(f.Render(r)))
+			if k == flow.Unknown && o == flow.Unknown {
+				o = flow.True
+			}
+			return k, o
+		}
+		return flow.Unknown, flow.True
+	}
+	tracked := func(l ast.Expr) (string, bool) {
+		l = ast.Unparen(l)
+		if c09fieldOf(f, l) == libTO {
+			return f.Render(l), true
+		}
+		if id, ok := l.(*ast.Ident); ok && id.Name != "_" && isDuration(id) {
+			return f.Render(id), true
+		}
+		return "", false
+	}
+	// policy struct literal: P := librl.Policy{TimeoutDuration: v, ...}
+	litInit := func(st *flow.State, l, r ast.Expr) bool {
+		r = ast.Unparen(r)
+		if u, ok := r.(*ast.UnaryExpr); ok && u.Op == token.AND {
+			r = ast.Unparen(u.X)
+		}
+		cl, ok := r.(*ast.CompositeLit)
+		if !ok {
+			return false
+		}
+		tv, ok := f.Info.Types[cl]
+		if !ok || tv.Type == nil {
+			return false
+		}
+		stt, ok := tv.Type.Underlying().(*types.Struct)
+		if !ok {
+			return false
+		}
+		has := false
+		for i := 0; i < stt.NumFields(); i++ {
+			if stt.Field(i) == libTO {
+				has = true
+			}
+		}
+		id, isID := ast.Unparen(l).(*ast.Ident)
+		if !has || !isID {
+			return false
+		}
+		target := f.Render(id) + "." + libTO.Name()
+		set(st, target, flow.Unknown, flow.Unknown) // zero value unless the literal sets it
+		for _, el := range cl.Elts {
+			if kv, ok := el.(*ast.KeyValueExpr); ok {
+				if k, ok := kv.Key.(*ast.Ident); ok && f.Info.Uses[k] == libTO {
+					kk, oo := classify(st, kv.Value)
+					set(st, target, kk, oo)
+				}
+			}
+		}
+		return true
+	}
+	res := analyze(c, f, flow.Config{
+		NoHavoc: true,
+		OnNode: func(st *flow.State, n ast.Node) {
+			var lhs, rhs []ast.Expr
+			tok := token.ASSIGN
+			switch s := n.(type) {
+			case *ast.AssignStmt:
+				lhs, rhs, tok = s.Lhs, s.Rhs, s.Tok
+			case *ast.ValueSpec:
+				for _, nm := range s.Names {
+					lhs = append(lhs, nm)
+				}
+				rhs, tok = s.Values, token.DEFINE
+			case *ast.IncDecStmt:
+				if t, ok := tracked(s.X); ok {
+					set(st, t, flow.Unknown, flow.True)
+				}
+				return
+			default:
+				return
+			}
+			switch {
+			case len(rhs) == 1 && len(lhs) == 2:
+				if t, ok := tracked(lhs[0]); ok {
+					k, o := classify(st, rhs[0])
+					set(st, t, k, o)
+				}
+			case len(lhs) == len(rhs):
+				type upd struct {
+					t    string
+					k, o flow.Val
+				}
+				var upds []upd
+				for i := range lhs {
+					if litInit(st, lhs[i], rhs[i]) {
+						continue
+					}
+					t, ok := tracked(lhs[i])
+					if !ok {
+						continue
+					}
+					if tok != token.ASSIGN && tok != token.DEFINE {
+						upds = append(upds, upd{t, flow.Unknown, flow.True})
+						continue
+					}
+					k, o := classify(st, rhs[i])
+					upds = append(upds, upd{t, k, o})
+				}
+				for _, u := range upds {
+					set(st, u.t, u.k, u.o)
+				}
+			}
+		},
+	})
+	if res == nil {
+		return
+	}
+	if wrong != nil {
+		c.Violate("R-C09-5", cons, pos(c, wrong), "the timeout of the limiter's policy is parsed from "+types.ExprString(wrong.Args[0])+", which is not the policy's timeoutDuration setting")
+		return
+	}
+	for _, sink := range news {
+		arg := c09resolve(f, sink.Args[0])
+		var bad, unset *flow.State
+		why, undecided := "", ""
+		n := 0
+		for _, st := range res.At[sink] {
+			n++
+			var k, o flow.Val
+			if mk, ok := arg.(*ast.CallExpr); ok && calleeIs(f, mk, c09lib+".NewPolicy") && len(mk.Args) == 3 {
+				k, o = classify(st, mk.Args[0])
+			} else if root := c09root(arg); root != nil {
+				t := f.Render(root) + "." + libTO.Name()
+				k, o = st.Get(kKey(t)), st.Get(oKey(t))
+			} else {
+				undecided = "cannot identify the policy handed to the limiter constructor"
+				break
+			}
+			switch {
+			case o == flow.True:
+				undecided = "the timeout handed to the limiter is neither the parsed setting nor a constant; the rule needs review"
+			case k == flow.True:
+			case k == flow.False:
+				ok := false
+				for key := range emptyKeys {
+					if st.Is(key, flow.True) {
+						ok = true
+					}
+				}
+				for key := range errKeys {
+					if st.Is(key, flow.False) {
+						ok = true
+					}
+				}
+				if !ok && bad == nil {
+					bad, why = st, "a built-in constant replaces the configured timeoutDuration on a path where the setting is not known to be empty (or unparsable): an explicit `timeoutDuration: 0ms` (never queue) is silently turned into the default, so requests that must be rejected with 429 are admitted and queued into future periods and admitted requests wait although the policy says they never do"
+				}
+			default:
+				if unset == nil {
+					unset = st
+				}
+			}
+		}
+		if bad == nil && unset != nil {
+			bad, why = unset, "no value derived from the configured timeoutDuration reaches the limiter's policy on this path (the policy keeps the zero timeout whatever is configured)"
+		}
+		switch {
+		case undecided != "":
+			c.Undecide("R-C09-5", cons, pos(c, sink), undecided)
+		case n == 0:
+			c.Discharge("R-C09-5", cons, pos(c, sink), "constructor call unreachable")
+		default:
+			c.Check(bad == nil, "R-C09-5", cons, pos(c, sink),
+				sprintf("%d state(s) reach the limiter constructor: the timeout is the parsed setting, or a constant chosen while the setting is empty", n), why, witness(bad)...)
+		}
+	}
+}
